@@ -7,6 +7,10 @@ hook_commits = subprocess.run(['git','-C','/repo','log','--format=%H','--grep=^v
 
 # id -> (technique, level text, level_note, design_ref)
 CLAIMED = {
+ "C04": ("rapid stateful/model-based testing: generated operation histories run in lock-step on goja and on a reference model of the ECMAScript object internal methods (esmodel)",
+         "Histories of up to 40 operations (defineProperty with all 64 descriptor shapes, get/set with explicit receivers, delete, has, ownKeys variants, integrity levels, prototype changes, for-in, Object.assign) over 1-3 subjects of 32 object kinds and index/numeric-string/string/symbol keys, issued through syntax (strict and sloppy), Object.* and Reflect.*; after every step the result, the accessor call log and the complete state (ordered keys, descriptors, extensibility, prototype) of every subject are compared with esmodel, which implements 10.1 ordinary objects, 10.4.2 Array (ArraySetLength), 10.4.3 String and 10.4.4 mapped arguments from the specification text. Shrunk histories become replay files.",
+         "Trusted: esmodel (written from ECMA-262, independent of goja). The initial property tables are read from the runtime itself, so only behaviour under operations is judged. Typed arrays, Go-backed wrappers and DynamicObject are not yet covered by this check (typed arrays are judged by C17, Go wrappers by C13). The Go API surface (Object.Get/Set/Define...) is exercised by C13/C14, not here.",
+         "DESIGN.md 4/C04"),
  "C01": ("rapid property-based testing / grammar-based fuzzing: generated programs over the whole syntax, token mutations and raw bytes, judged by a crash/diagnostic/VM-idle-state oracle",
          "Generated-input search over source texts (<=64 KiB, nesting <=200) in three layers - grammar programs over every production incl. deep nesting, token-level mutations, raw bytes with malformed UTF-8 - each in strict/sloppy and global/function/eval/new Function placement, through Parse, Compile and Run. Oracle: only documented error kinds come back, no Go panic reaches the harness, no 'Compiler bug' diagnostic, err.Error() itself does not panic, and after the run the VM registers are idle (operand stack at 0, call/try/iterator/reference stacks empty, global scope, no pending jobs) and the runtime still runs 1+1. A process death (fatal error) is attributed to the case in flight by the driver.",
          "Trusted: the hook accessor VerifVMState (read-only); the 150 ms interrupt watchdog (can only lose detections). Inputs that do not terminate inside a non-interruptible built-in are counted inconclusive. Evidence by search: crashes that need inputs outside the generators' reach are not excluded.",
